@@ -475,6 +475,9 @@ class Tensor:
         _bump(self, (o,) if _isinstance(o, Tensor) else ())
         return self
 
+    def copy_(self, o):
+        return self._inplace(o, lambda x, y: y + _np.zeros(x.shape, dtype=object) if _isinstance(y, _np.ndarray) else y)
+
     def __iadd__(self, o):
         return self._inplace(o, lambda x, y: x + y)
 
@@ -614,22 +617,25 @@ class Tensor:
 def _mk(a, dt, parents=(), view=False):
     """make a result tensor; propagate 'tracked' flag (grad_fn) from parents."""
     t = Tensor(a, dt)
-    for p in parents:
-        if _isinstance(p, Tensor) and (p.requires_grad or p.grad_fn is not None):
-            if t.dtype.cat >= 2:
-                t.grad_fn = 'op'
-                t.requires_grad = True
-                t.is_leaf = False
-            break
+    if _GRAD_MODE[0]:
+        for p in parents:
+            if _isinstance(p, Tensor) and (p.requires_grad or p.grad_fn is not None):
+                if t.dtype.cat >= 2:
+                    t.grad_fn = 'op'
+                    t.requires_grad = True
+                    t.is_leaf = False
+                break
     return t
 
 
 def _check_inplace(t):
-    if t.requires_grad and t.is_leaf:
+    if t.requires_grad and t.is_leaf and _GRAD_MODE[0]:
         raise RuntimeError('a leaf Variable that requires grad is being used in an in-place operation.')
 
 
 def _bump(t, parents):
+    if not _GRAD_MODE[0]:
+        return
     for p in parents:
         if _isinstance(p, Tensor) and (p.requires_grad or p.grad_fn is not None) and t.dtype.cat >= 2:
             t.grad_fn = 'op'
@@ -1225,6 +1231,8 @@ def _sqrt_scalar(v):
         if v == 0 or v == 1:
             return v
         import math
+        if _isinstance(v, _py_float):
+            return math.sqrt(v)      # a double computed by the code under test: kept as the double it is
         r = math.isqrt(int(v)) if _isinstance(v, int) else None
         if r is not None and r * r == v:
             return r
@@ -1628,11 +1636,17 @@ jit.export = lambda f: f
 jit.script = lambda f: f
 
 
+_GRAD_MODE = [True]
+
+
 class _NoGrad:
     def __enter__(self):
+        self.prev = _GRAD_MODE[0]
+        _GRAD_MODE[0] = False
         return self
 
     def __exit__(self, *a):
+        _GRAD_MODE[0] = self.prev
         return False
 
 
